@@ -112,12 +112,14 @@ type msess struct {
 	qfi    map[uint32]uint8
 	q      map[uint16][]string
 	reused bool
+	owner  int // the node whose socket the session's reports go to and whose requests address it (changes with a takeover)
 }
 
 type stats struct {
 	overflowThenRelease, releaseAfterReuse, twoForw bool
 	recreated                                       bool
 	createdAgain                                    bool // a Create PDR for a PDR that exists (refused), with the session going on
+	takeover                                        bool // a session taken over by the other SMF, with notifications afterwards
 	late                                            bool // notifications delivered after the removal of their PDR
 	rmWithURR                                       bool // a PDR and its URR removed by one message
 	lateSeid0                                       bool // a notification answered with SEID 0 after its session had ended
@@ -182,7 +184,7 @@ func run(c Case) (v *vcore.Violation, stt stats) {
 	usedUP := map[uint64]bool{}
 	establish := func(sp SessSpec, what string) *vcore.Violation {
 		var rules []stack.RuleOp
-		m := &msess{spec: sp, alive: true, fars: map[uint32]*mfar{}, pdrs: map[uint16]*mpdr{}, qfi: map[uint32]uint8{}, q: map[uint16][]string{}}
+		m := &msess{spec: sp, owner: sp.Node, alive: true, fars: map[uint32]*mfar{}, pdrs: map[uint16]*mpdr{}, qfi: map[uint32]uint8{}, q: map[uint16][]string{}}
 		for _, q := range sp.QERs {
 			rules = append(rules, stack.RuleOp{Verb: "create", Kind: "QER", ID: q.ID, QFI: q.QFI})
 			m.qfi[q.ID] = q.QFI
@@ -383,8 +385,8 @@ func run(c Case) (v *vcore.Violation, stt stats) {
 				if m == nil {
 					return vcore.Violatef("dldr-for-dead-session", "%s: a Session Report Request was sent for SEID %#x which is not a live session", what, seid), stt
 				}
-				if s.Sock != m.spec.Node || s.SEID != m.spec.CP {
-					return vcore.Violatef("dldr-misdirected", "%s: downlink data report went to socket %d with SEID %#x, owner is node %d with CP SEID %#x", what, s.Sock, s.SEID, m.spec.Node, m.spec.CP), stt
+				if s.Sock != m.owner || s.SEID != m.spec.CP {
+					return vcore.Violatef("dldr-misdirected", "%s: downlink data report went to socket %d with SEID %#x, owner is node %d with CP SEID %#x", what, s.Sock, s.SEID, m.owner, m.spec.CP), stt
 				}
 				if s.Msg.DownlinkDataReport == nil {
 					return vcore.Violatef("dldr-missing-ie", "%s: Session Report Request without Downlink Data Report", what), stt
@@ -444,7 +446,7 @@ func run(c Case) (v *vcore.Violation, stt stats) {
 			if ev.NewGNB > 0 {
 				op.OHC = &stack.OHC{TEID: ev.NewTEID, Peer: f.S.Net.IP(10 + ev.NewGNB - 1)}
 			}
-			o := r.Step(stack.Op{Kind: "mod", Peer: m.spec.Node, Sess: m.ref, Rules: []stack.RuleOp{op}})
+			o := r.Step(stack.Op{Kind: "mod", Peer: m.owner, Sess: m.ref, Rules: []stack.RuleOp{op}})
 			if x := dead(o, what); x != nil {
 				return x, stt
 			}
@@ -605,7 +607,7 @@ func run(c Case) (v *vcore.Violation, stt stats) {
 				p.urrGone = true
 				stt.rmWithURR = true
 			}
-			o := r.Step(stack.Op{Kind: "mod", Peer: m.spec.Node, Sess: m.ref, Rules: rm})
+			o := r.Step(stack.Op{Kind: "mod", Peer: m.owner, Sess: m.ref, Rules: rm})
 			if x := dead(o, what); x != nil {
 				return x, stt
 			}
@@ -623,7 +625,7 @@ func run(c Case) (v *vcore.Violation, stt stats) {
 			if p := m.pdrs[ev.PDR]; p != nil && !p.removed {
 				// a Create PDR for a PDR the session has: the data plane refuses it and goes on buffering for the installed PDR; what
 				// is held for that PDR stays held (the model does not change)
-				o := r.Step(stack.Op{Kind: "mod", Peer: m.spec.Node, Sess: m.ref, Rules: []stack.RuleOp{
+				o := r.Step(stack.Op{Kind: "mod", Peer: m.owner, Sess: m.ref, Rules: []stack.RuleOp{
 					{Verb: "create", Kind: "PDR", ID: uint32(ev.PDR), Prec: 1, SrcIf: 1, UEIP: "10.60.0.1", FAR: p.far, QERs: p.qers}}})
 				if x := dead(o, what); x != nil {
 					return x, stt
@@ -637,7 +639,7 @@ func run(c Case) (v *vcore.Violation, stt stats) {
 			if p := m.pdrs[ev.PDR]; p == nil || !p.removed || m.fars[ev.FAR] == nil {
 				continue
 			}
-			o := r.Step(stack.Op{Kind: "mod", Peer: m.spec.Node, Sess: m.ref, Rules: []stack.RuleOp{
+			o := r.Step(stack.Op{Kind: "mod", Peer: m.owner, Sess: m.ref, Rules: []stack.RuleOp{
 				{Verb: "create", Kind: "PDR", ID: uint32(ev.PDR), Prec: 1, SrcIf: 1, UEIP: "10.60.0.1", FAR: ev.FAR, QERs: ev.QERs}}})
 			if x := dead(o, what); x != nil {
 				return x, stt
@@ -651,6 +653,25 @@ func run(c Case) (v *vcore.Violation, stt stats) {
 			if g := drainGNBs(); len(g) > 0 {
 				return vcore.Violatef("unexpected-emission", "%s: packets emitted on PDR creation", what), stt
 			}
+		case "takeover":
+			// another SMF of the set takes the session over (a Modification naming its own Node ID): from now on the session's
+			// downlink data notifications are raised towards that SMF, and it is that SMF that makes the FAR forward
+			if ev.Sess >= len(ms) || !ms[ev.Sess].alive {
+				continue
+			}
+			m := ms[ev.Sess]
+			to := 1 - m.owner
+			o := r.Step(stack.Op{Kind: "mod", Peer: to, Sess: m.ref, Takeover: true, Node: to})
+			if x := dead(o, what); x != nil {
+				return x, stt
+			}
+			// go-upf re-keys the node the session was established under: every session of that association follows
+			for _, a := range ms {
+				if a.spec.Node == m.spec.Node {
+					a.owner = to
+				}
+			}
+			stt.takeover = true
 		case "reassoc":
 			// the session's node sets its association up again: all of its sessions end, their SEIDs become free for anybody
 			if ev.Sess >= len(ms) {
@@ -701,7 +722,7 @@ func run(c Case) (v *vcore.Violation, stt stats) {
 				continue
 			}
 			m := ms[ev.Sess]
-			o := r.Step(stack.Op{Kind: "del", Peer: m.spec.Node, Sess: m.ref})
+			o := r.Step(stack.Op{Kind: "del", Peer: m.owner, Sess: m.ref})
 			if x := dead(o, what); x != nil {
 				return x, stt
 			}
@@ -757,7 +778,7 @@ func gen(t *rapid.T) Case {
 		c.Sess = append(c.Sess, genSess(t, uint64(0x60+i)))
 	}
 	// scripted cores make the interesting shapes frequent; free-form events follow
-	scen := rapid.SampledFrom([]string{"free", "free", "overflow", "twoforw", "reuse", "reuseorphan", "lateseid0", "reassocreuse", "recreate", "recreatelate", "createagain", "refill", "dropshared"}).Draw(t, "scenario")
+	scen := rapid.SampledFrom([]string{"free", "free", "overflow", "twoforw", "reuse", "reuseorphan", "lateseid0", "reassocreuse", "recreate", "recreatelate", "createagain", "refill", "dropshared", "takeover"}).Draw(t, "scenario")
 	if scen != "free" {
 		c.Sess[0].FARs[0].Action = rapid.SampledFrom([]uint16{BUFF, BUFF | NOCP}).Draw(t, "a0")
 		c.Sess[0].PDRs[0].FAR = 1
@@ -767,6 +788,14 @@ func gen(t *rapid.T) Case {
 	}
 	forw := Ev{Kind: "updfar", Sess: 0, FAR: 1, Action: FORW}
 	switch scen {
+	case "takeover":
+		// a notification (with NOCP: the SMF is told), the other SMF takes the session over, more packets arrive: the new
+		// owner is told, and it is the new owner that releases all of them.  (No random events behind this one: what
+		// re-association and new sessions mean after a takeover is C05's ambiguity, not this property's.)
+		c.Sess[0].FARs[0].Action = BUFF | NOCP
+		c.Evs = append(c.Evs, Ev{Kind: "burst", Sess: 0, Target: "live", PDR: 1, N: rapid.IntRange(1, 4).Draw(t, "before"), NOCP: true}, Ev{Kind: "takeover", Sess: 0},
+			Ev{Kind: "burst", Sess: 0, Target: "live", PDR: 1, N: rapid.IntRange(1, 4).Draw(t, "after"), NOCP: true}, forw)
+		return c
 	case "overflow":
 		c.Evs = append(c.Evs, Ev{Kind: "burst", Sess: 0, Target: "live", PDR: 1, N: rapid.SampledFrom([]int{511, 512, 513, 520, 700}).Draw(t, "big")}, small(), forw)
 	case "dropshared":
@@ -903,6 +932,9 @@ func brief(c Case) any {
 }
 
 func account(c Case, s stats) {
+	if s.takeover {
+		vcore.E.Class("notifications_after_a_takeover_by_the_other_smf")
+	}
 	vcore.E.Eval()
 	vcore.E.ClassN("notifications", int64(s.notified))
 	vcore.E.ClassN("packets_released", int64(s.released))
